@@ -205,7 +205,7 @@ PROPS = {
         assumptions=[],
     ),
     'C14': dict(
-        theorem_files=['C14', 'C14s', 'C14c', 'Judges', 'Snap', 'TracePB'],
+        theorem_files=['C14', 'C14s', 'C14c', 'C14g', 'Judges', 'Snap', 'TracePB'],
         parts=[dict(harness='C14', judge='C14', cases=dict(quick=6000, thorough=50000), judge_module='Judge.J14', judge_fn='judge_C14'),
                dict(harness='C14opt', judge='C03', cases=dict(quick=3000, thorough=30000)),
                dict(harness='S14', judge='snaps', cases=dict(quick=3000, thorough=30000), judge_module='Judge.J21', judge_fn='judge_snaps'),
